@@ -126,7 +126,8 @@ def c05_events(ast, compare_original=False, keep=None, expected=None):
       n0, n1 = st.norm_unit(ast if expected is None else expected), st.norm_unit(a1)
       evs.append(ev("Compare", True, st.digest(n1["decls"]),
                     e=(n0["decls"] == n1["decls"]) and set(n0["imports"]) <= set(n1["imports"]),
-                    x="" if n0["decls"] == n1["decls"] else "declarations differ"))
+                    x="" if n0["decls"] == n1["decls"] else
+                    "declarations differ at " + st.first_difference(n0["decls"], n1["decls"])))
       keep["n0"], keep["n1"] = n0, n1
     except Exception as e:  # pylint: disable=broad-except
       evs.append(ev("Compare", False, x=_err(e)))
@@ -170,7 +171,8 @@ def c05_case(ident, origin, ast, compare, pyi=None, want_texts=False, expected=N
     out["texts"] = {k: v for k, v in keep.items() if k in ("t1", "t2", "t3")}
   else:
     # enough to describe a failure without shipping every text back
-    fp = [e for e in evs if not e["ok"]] or keep.get("t2") != keep.get("t1")
+    fp = ([e for e in evs if not e["ok"]] or keep.get("t2") != keep.get("t1")
+          or [e for e in evs if e["op"] == "Compare" and not e["e"]])
     if fp:
       out["texts"] = {k: v[:6000] for k, v in keep.items() if k in ("t1", "t2")}
   return out
